@@ -66,3 +66,30 @@ def notification_kernel(si: int, ti: int, has_stop: int, status: int, whole: int
     if stop is None or stop == 0:
         return d["stopDate"] == stop
     return d["stopDate"] == int(stop * 1000)
+
+
+
+@condition(timeout={"quick": 60, "thorough": 120}, functions=["StateEngine.broadcast_notification (the stored record when publishing fails)"])
+def notification_failure_leaves_record(si: int, has_stop: bool, raises: bool) -> bool:
+    """
+    requires: 0 <= si < 5
+    ensures: _
+    """
+    # "publishing it does not alter the stored record (which keeps epoch seconds)" - also when the send raises
+    eng, log = stubs.make_engine({"StartAt": "P", "States": {"P": {"Type": "Succeed"}}})
+    sm = "arn:aws:states:local:0123456789:stateMachine:m"
+    ex = "arn:aws:states:local:0123456789:execution:m:e1"
+    start = pick(SECONDS, si)
+    detail = {"executionArn": ex, "input": "{}", "name": "e1", "output": None, "startDate": start, "stateMachineArn": sm,
+              "status": "SUCCEEDED" if has_stop else "RUNNING", "stopDate": (start + 1.5) if has_stop else None}
+    before = dict(detail)
+    if raises:
+        def boom(subject, item, carrier_properties=None):
+            raise RuntimeError("connection lost")
+        eng.event_dispatcher.broadcast = boom
+    try:
+        eng.broadcast_notification(ex, detail, {"Tracer": {}})
+    except RuntimeError:
+        if not raises:
+            return False
+    return detail == before and type(detail["startDate"]) is float
